@@ -233,7 +233,7 @@ def passes_r10_count(entries):
     return rs in ok and cs in ok
 
 
-def graph_instance(rng, nv, ne, signed, loops=True, edges=None):
+def graph_instance(rng, nv, ne, signed, loops=True, edges=None, forest_first=None):
     """random multi(di)graph with a random spanning forest; returns (M, witness_tokens) where M = M(G,T) (signed: with
     arc reversals applied) with rows in a random order of the forest edges and columns in a random order of the others;
     witness_tokens = '1 <graph> <forest ids> <coforest ids> <rev ids>' in the format of GraphModel.dwitness"""
@@ -260,6 +260,8 @@ def graph_instance(rng, nv, ne, signed, loops=True, edges=None):
             x = comp[x]
         return x
     order = rng.shuffle(list(range(ne)))
+    if forest_first is not None:
+        order = list(forest_first) + [e for e in order if e not in set(forest_first)]
     forest = []
     for e in order:
         u, v = edges[e]
@@ -1139,3 +1141,22 @@ def regular_cert_lines(rng, count, maxnodes=40):
 REGULAR_CERT_CODES = {1: "malformed record", 440: "CMRregularTest failed on a (co)graphic matrix",
                       441: "verdict not written although no stop flag is set",
                       442: "a graphic / cographic matrix (certified by its graph) is reported not regular"}
+
+
+def deep_forest_network(rng, n, chords):
+    """network matrix whose tree is a path (or a long-armed spider) with about n arcs, so that the recognition's searches
+    along the forest reach depths above 255; returns (M, witness tokens)"""
+    arms = 1 if rng.below(2) else 2 + rng.below(2)
+    edges = []
+    tips = [0] * arms
+    nv = 1
+    for i in range(n):
+        a = i % arms
+        edges.append((tips[a], nv) if rng.below(2) else (nv, tips[a]))
+        tips[a] = nv
+        nv += 1
+    tree = list(range(len(edges)))
+    for _ in range(chords):
+        u, v = rng.below(nv), rng.below(nv)
+        edges.append((u, v))
+    return graph_instance(rng, nv, len(edges), True, edges=edges, forest_first=tree)
